@@ -23,6 +23,9 @@ pub struct OptCase {
     pub ast: OptAst,
     /// None = the full request grid (types x parties x schemes); Some = these requests only
     pub reqs: Option<Vec<(String, String, bool, Option<String>)>>, // (raw type, scheme, third party, source host)
+    /// Some("ws" | "http" | "https"): the rule's pattern is the scheme-only pattern `|<scheme>://`
+    #[serde(default)]
+    pub scheme_form: Option<String>,
 }
 
 impl Case for OptCase {
@@ -31,28 +34,28 @@ impl Case for OptCase {
         if let Some(rs) = &self.reqs {
             if rs.len() > 1 {
                 for r in rs {
-                    v.push(OptCase { ast: self.ast.clone(), reqs: Some(vec![r.clone()]) });
+                    v.push(OptCase { ast: self.ast.clone(), reqs: Some(vec![r.clone()]), scheme_form: self.scheme_form.clone() });
                 }
             }
             for i in 0..self.ast.types.len() {
                 let mut a = self.ast.clone();
                 a.types.remove(i);
-                v.push(OptCase { ast: a, reqs: self.reqs.clone() });
+                v.push(OptCase { ast: a, reqs: self.reqs.clone(), scheme_form: self.scheme_form.clone() });
             }
             for i in 0..self.ast.domains.len() {
                 let mut a = self.ast.clone();
                 a.domains.remove(i);
-                v.push(OptCase { ast: a, reqs: self.reqs.clone() });
+                v.push(OptCase { ast: a, reqs: self.reqs.clone(), scheme_form: self.scheme_form.clone() });
             }
             if self.ast.party.is_some() {
                 let mut a = self.ast.clone();
                 a.party = None;
-                v.push(OptCase { ast: a, reqs: self.reqs.clone() });
+                v.push(OptCase { ast: a, reqs: self.reqs.clone(), scheme_form: self.scheme_form.clone() });
             }
             if self.ast.important {
                 let mut a = self.ast.clone();
                 a.important = false;
-                v.push(OptCase { ast: a, reqs: self.reqs.clone() });
+                v.push(OptCase { ast: a, reqs: self.reqs.clone(), scheme_form: self.scheme_form.clone() });
             }
         }
         v
@@ -60,6 +63,16 @@ impl Case for OptCase {
 }
 
 const HOST: &str = "sub.target-site.com";
+
+fn rule_line_form(a: &OptAst, scheme_form: &Option<String>) -> String {
+    match scheme_form {
+        Some(sf) => {
+            let o = a.render();
+            format!("{}|{}://{}{}", if a.exception { "@@" } else { "" }, sf, if o.is_empty() { "" } else { "$" }, o)
+        }
+        None => rule_line(a),
+    }
+}
 
 fn rule_line(a: &OptAst) -> String {
     let pat = if a.host_caret_form { format!("||{}^", HOST) } else { "/cpath/".to_string() };
@@ -96,7 +109,7 @@ fn grid() -> Vec<(String, String, bool, Option<String>)> {
 }
 
 pub fn check_case(c: &OptCase, obs: &mut Obs) -> Result<(), String> {
-    let line = rule_line(&c.ast);
+    let line = rule_line_form(&c.ast, &c.scheme_form);
     let f = match parse_filter(&line, true, std_opts()) {
         Ok(ParsedFilter::Network(f)) => f,
         _ => {
@@ -113,7 +126,7 @@ pub fn check_case(c: &OptCase, obs: &mut Obs) -> Result<(), String> {
         }
     };
     // engine-level observation of a single-rule list
-    let helper_blocker = "/cpath/".to_string();
+    let helper_blocker = "/cpath/".to_string(); // every grid URL contains /cpath/
     let rules: Vec<String> = if c.ast.exception && c.ast.modifier == Modifier::None { vec![line.clone(), helper_blocker] } else { vec![line.clone()] };
     let engine = build_engine(&rules, false, false, &[]);
     for (raw_type, scheme, third, source_host) in reqs {
@@ -126,7 +139,16 @@ pub fn check_case(c: &OptCase, obs: &mut Obs) -> Result<(), String> {
         obs.inner_evals += 1;
         let supported = ["http", "https", "ws", "wss"].contains(&scheme.as_str());
         let facts = ReqFacts { raw_type, scheme, third_party: *third, source_host: source_host.as_deref() };
-        let want_rule = c.ast.applies(&facts);
+        let pattern_can_match = match c.scheme_form.as_deref() {
+            None => true,
+            Some(sf) => {
+                if sf == "ws" && scheme == "wss" {
+                    continue; // known finding C02-scheme-pattern-mask: |ws:// also matches wss://
+                }
+                sf == scheme.as_str()
+            }
+        };
+        let want_rule = pattern_can_match && c.ast.applies(&facts);
         if req.is_third_party != *third {
             return Err(format!("harness self-check: request {} from {} expected third_party={} got {}", url, src, third, req.is_third_party));
         }
@@ -135,7 +157,7 @@ pub fn check_case(c: &OptCase, obs: &mut Obs) -> Result<(), String> {
             if got != want_rule {
                 return Err(format!(
                     "REPLAY_CASE:{}\nrule {:?}: request (type {:?}, scheme {}, third-party {}, source {:?}) reference says applies={}, NetworkFilter::matches says {}",
-                    serde_json::to_string(&OptCase { ast: c.ast.clone(), reqs: Some(vec![(raw_type.clone(), scheme.clone(), *third, source_host.clone())]) }).unwrap(),
+                    serde_json::to_string(&OptCase { ast: c.ast.clone(), reqs: Some(vec![(raw_type.clone(), scheme.clone(), *third, source_host.clone())]), scheme_form: c.scheme_form.clone() }).unwrap(),
                     line, raw_type, scheme, third, source_host, want_rule, got
                 ));
             }
@@ -152,7 +174,7 @@ pub fn check_case(c: &OptCase, obs: &mut Obs) -> Result<(), String> {
             (Modifier::None, true) => {
                 // helper blocker matches every supported non-document request of a network type;
                 // observable only when the helper itself applies
-                let helper = OptAst { types: vec![], party: None, domains: vec![], important: false, exception: false, modifier: Modifier::None, host_caret_form: false };
+                let helper = OptAst { types: vec![], party: None, party2: None, domains: vec![], important: false, exception: false, modifier: Modifier::None, host_caret_form: false };
                 if !(helper.applies(&facts) && supported) {
                     continue;
                 }
@@ -177,7 +199,7 @@ pub fn check_case(c: &OptCase, obs: &mut Obs) -> Result<(), String> {
         if engine_says != want {
             return Err(format!(
                 "REPLAY_CASE:{}\nrule {:?}: request (type {:?}, scheme {}, third-party {}, source {:?}) reference says applies={}, single-rule engine says {} ({:?})",
-                serde_json::to_string(&OptCase { ast: c.ast.clone(), reqs: Some(vec![(raw_type.clone(), scheme.clone(), *third, source_host.clone())]) }).unwrap(),
+                serde_json::to_string(&OptCase { ast: c.ast.clone(), reqs: Some(vec![(raw_type.clone(), scheme.clone(), *third, source_host.clone())]), scheme_form: c.scheme_form.clone() }).unwrap(),
                 line, raw_type, scheme, third, source_host, want, engine_says, Verdict::of(&b)
             ));
         }
@@ -239,7 +261,7 @@ fn nth_ast(i: u64, sets: &[Vec<(String, bool)>]) -> Option<OptAst> {
     if i > 0 {
         return None;
     }
-    Some(OptAst { types: ts.clone(), party: party.map(|s| s.to_string()), domains: vec![], important, exception, modifier, host_caret_form })
+    Some(OptAst { types: ts.clone(), party: party.map(|s| s.to_string()), party2: None, domains: vec![], important, exception, modifier, host_caret_form })
 }
 
 // ---- random part: domain lists ----------------------------------------------------------------
@@ -263,6 +285,7 @@ fn decode_domains(t: &mut Tape) -> OptCase {
     let ast = OptAst {
         types,
         party: if t.chance(1, 4) { PARTIES[t.pick(PARTIES.len())].map(|s| s.to_string()) } else { None },
+        party2: None,
         domains,
         important: t.chance(1, 6),
         exception: t.chance(1, 4),
@@ -289,25 +312,66 @@ fn decode_domains(t: &mut Tape) -> OptCase {
         // source above is third-party; absent sources are third-party as well
         reqs.push((t.choose(&["script", "image", "xhr", "document", "other"]).to_string(), t.choose(&["https", "http", "wss"]).to_string(), true, src));
     }
-    OptCase { ast, reqs: Some(reqs) }
+    OptCase { ast, reqs: Some(reqs), scheme_form: None }
+}
+
+/// random combinations the grid does not enumerate: two party options, scheme-only patterns
+fn decode_combos(t: &mut Tape) -> OptCase {
+    let mut types = vec![];
+    for _ in 0..t.pick(3) {
+        let sp = if t.chance(1, 4) { t.choose(TYPE_ALIASES) } else { t.choose(TYPE_SPELLINGS) };
+        types.push((sp.to_string(), sp != "doc" && t.chance(1, 3)));
+    }
+    let party = PARTIES[t.pick(PARTIES.len())].map(|s| s.to_string());
+    let party2 = if party.is_some() && t.chance(1, 2) { PARTIES[1 + t.pick(PARTIES.len() - 1)].map(|s| s.to_string()) } else { None };
+    let scheme_form = match t.pick(4) {
+        // known finding C03-ws-pattern-sets-websocket-type: `|ws://` sets the websocket *type* bit,
+        // so it is only generated without type options (excluded by construction)
+        0 if types.is_empty() => Some("ws".to_string()),
+        0 => None,
+        1 => Some(t.choose(&["https", "http"]).to_string()),
+        _ => None,
+    };
+    let ast = OptAst { types, party, party2, domains: vec![], important: t.chance(1, 6), exception: scheme_form.is_none() && t.chance(1, 4), modifier: Modifier::None, host_caret_form: scheme_form.is_none() && t.chance(1, 3) };
+    let g = grid();
+    let mut reqs = vec![];
+    for _ in 0..(6 + t.pick(8)) {
+        reqs.push(g[t.pick(g.len())].clone());
+    }
+    OptCase { ast, reqs: Some(reqs), scheme_form }
 }
 
 pub fn check(ctx: &mut Ctx) {
-    ctx.rule = "exhaustive: every type-option set of size <= 2 over the 11 resource types with all sign combinations, all aliases, document combinations and a few triples (x 9 party spellings x exception x {none, csp, removeparam} x {plain pattern, ||host^ form} x important) against the full request grid of 26 request-type strings x 6 schemes x {first, third party}; random: domain=/~domain lists (1-5 entries, duplicates, public-suffix entries) against listed / sub- / parent / look-alike / unrelated / absent sources. Observed at NetworkFilter::matches and at a single-rule engine (matched / exception / csp / rewritten_url). Non-trivial = the reference says the rule applies to the request.".into();
+    ctx.rule = "exhaustive: every type-option set of size <= 2 over the 11 resource types with all sign combinations, all aliases, document combinations and a few triples (x 9 party spellings x exception x {none, csp, removeparam} x {plain pattern, ||host^ form} x important) against the full request grid of 26 request-type strings x 6 schemes x {first, third party}; combos: random type sets with one or two (possibly contradictory) party options and scheme-only patterns ('|ws://', '|http://', '|https://') against random grid requests; random: domain=/~domain lists (1-5 entries, duplicates, public-suffix entries) against listed / sub- / parent / look-alike / unrelated / absent sources. Observed at NetworkFilter::matches and at a single-rule engine (matched / exception / csp / rewritten_url). Non-trivial = the reference says the rule applies to the request.".into();
     ctx.assumptions = vec![
         "csp_report maps to no resource-type option; websocket schemes force the websocket type; exceptions also apply to documents".into(),
         "option combinations the parser rejects (csp with types, removeparam exception) are skipped and counted".into(),
     ];
+    ctx.probe(
+        "C03-ws-pattern-sets-websocket-type",
+        serde_json::json!({"rule": "|ws://$other", "request": {"type": "speculative", "url": "ws://sub.target-site.com/cpath/x"}}),
+        check_case(
+            &OptCase {
+                ast: OptAst { types: vec![("other".into(), false)], party: None, party2: None, domains: vec![], important: false, exception: false, modifier: Modifier::None, host_caret_form: false },
+                reqs: Some(vec![("speculative".into(), "ws".into(), true, Some("unrelated.org".into()))]),
+                scheme_form: Some("ws".into()),
+            },
+            &mut Obs::default(),
+        )
+        .map_err(|e| e.lines().last().unwrap_or("").to_string()),
+    );
     let sets = type_sets();
     let total = sets.len() as u64 * PARTIES.len() as u64 * 2 * 3 * 2 * 2;
     let stride = ctx.tier.pick(4u64, 1u64);
     let seed = ctx.seed;
     let n = total / stride;
-    run_indexed(ctx, "grid", n, &|k| nth_ast(((k * stride) + (seed % stride)) % total, &sets).map(|ast| OptCase { ast, reqs: None }), &check_case);
+    run_indexed(ctx, "grid", n, &|k| nth_ast(((k * stride) + (seed % stride)) % total, &sets).map(|ast| OptCase { ast, reqs: None, scheme_form: None }), &check_case);
     ctx.exhaustive = false;
     ctx.extra.insert("grid_part".into(), json!({"rules_total": total, "rules_enumerated": n, "stride": stride, "requests_per_rule": grid().len(), "exhaustive": stride == 1}));
     let n = ctx.tier.pick(300_000, 3_000_000);
     drive(ctx, "domains", n, 120, &decode_domains, &check_case);
+    let n = ctx.tier.pick(300_000, 3_000_000);
+    drive(ctx, "combos", n, 120, &decode_combos, &check_case);
 }
 
 pub fn replay(ctx: &mut Ctx, v: &Value) {
